@@ -47,6 +47,13 @@ def groups(tier: str):
     # two groups sharing a variable
     yield ("two_groups", ["p(G,A)", "p(G,B)", "p3(G,C,T)", "p3(G,D,T)"], ["A != B", "C != D"], ["A", "B", "C", "D"], "G")
     yield ("two_groups_shared", ["p(G,A)", "p(G,B)", "p3(G,A,T)", "p3(G,C,T)"], ["A != B", "A != C"], ["A", "B", "C"], "G")
+    # a group of three and a group of two over some of the same variables
+    yield ("k3_k2", ["w(A)", "w(B)", "w(C)", "q(A)", "q(B)"], ["A != B", "B != C", "A != C"], ["A", "B", "C"], None)
+    yield ("k3_k2_last", ["w(A)", "w(B)", "w(C)", "q(B)", "q(C)"], ["A != B", "B != C", "A != C"], ["A", "B", "C"], None)
+    yield ("k3_k2_grp", ["p(G,A)", "p(G,B)", "p(G,C)", "p3(G,A,T)", "p3(G,B,T)"], ["A != B", "B != C", "A != C"], ["A", "B", "C"], "G")
+    yield ("k2_k2_same", ["w(A)", "w(B)", "q(A)", "q(B)"], ["A != B"], ["A", "B"], None)
+    yield ("k3_k3_same", ["w(A)", "w(B)", "w(C)", "q(A)", "q(B)", "q(C)"], ["A != B", "B != C", "A != C"], ["A", "B", "C"], None)
+    yield ("two_groups_eqpos", ["w(X)", "w(Y)", "p(A,X)", "p(B,X)"], ["X != Y", "A != B"], ["X", "Y", "A", "B"], None)
     # zero-ary group (no shared argument)
     yield ("p1k2", ["w(A)", "w(B)"], ["A != B"], ["A", "B"], None)
     yield ("p1k3", ["w(A)", "w(B)", "w(C)"], ["A != B", "B != C", "A != C"], ["A", "B", "C"], None)
@@ -60,6 +67,9 @@ EXTRAS = [
     ("cond_A", "q(Z) : w(Z), Z < A"),
     ("agg_A", "1 <= #sum {{ 1,Z : w(Z), Z < A }}"),
     ("cmp_A", "A > 1"),
+    ("agg_pos_A", "1 <= #sum {{ 1,Z : p(Z,A) }}"),
+    ("cond_pos_A", "q(Z) : p(Z,A)"),
+    ("count_pos_A", "1 <= #count {{ Z : p(Z,A) }}"),
     ("sum_AB", "A + B > 3"),
     ("eq_AZ", "Z = A, q(Z)"),
 ]
